@@ -457,6 +457,14 @@ impl<'q> Into<String> for &'q str { fn into(self) -> String { String::from("host
     "str": "#[allow(non_camel_case_types)] type str = [u8];",
     "i64": "#[allow(non_camel_case_types)] type i64 = i32;\n#[allow(non_camel_case_types)] type bool = u8;",
     "Send": "trait Send {}\ntrait Sync {}\ntrait Sized2 {}",
+    # a blanket extension trait of iterators with a method called `get` (the shape of itertools' `get`): `self.get(i)` on a `&mut Self` receiver
+    # prefers it to an inherent `get(&self)`
+    "IterGet": "trait HostileIterGet: Sized { fn get(&mut self, _n: usize) -> ::core::option::Option<u8> { ::core::option::Option::None } }\nimpl<T: ::core::iter::Iterator> HostileIterGet for T {}",
+    # user macros named like std macros (textual scope: they shadow the std ones for everything below them in the module)
+    "m_matches": "macro_rules! matches { ($($t:tt)*) => { false } }",
+    "m_panic": "macro_rules! panic { ($($t:tt)*) => { loop {} } }",
+    "m_fmt": "macro_rules! concat { ($($t:tt)*) => { \"\" } }\nmacro_rules! stringify { ($($t:tt)*) => { \"\" } }\nmacro_rules! write { ($($t:tt)*) => { ::core::result::Result::Ok(()) } }",
+    "m_assert": "macro_rules! assert { ($($t:tt)*) => { () } }\nmacro_rules! debug_assert { ($($t:tt)*) => { () } }\nmacro_rules! unreachable { ($($t:tt)*) => { loop {} } }\nmacro_rules! todo { ($($t:tt)*) => { loop {} } }\nmacro_rules! unimplemented { ($($t:tt)*) => { loop {} } }",
     "PhantomData": "struct PhantomData;\nmod marker {}\nmod fmt {}\nmod iter {}\nmod option {}\nmod result {}\nmod convert {}\nmod default {}",
 }
 
